@@ -6,6 +6,7 @@
    A <hexalg> <true|false>     configuration: is the hash implementation linked into the harness binary
    F <hexreg> <hexrepo> <hexref>   Reference.String()
    Q <referrers|mount> <plain> <hexreg> <hexrepo> <hexref> <hexarg>   query-carrying URL builders
+   D <op> <plain> <hexreg> <hexrepo> <hexdigest> <hexarg> <hexpagesize>   descriptor-driven operations
    G <hexreg>                  Reference.ValidateRegistry (Model/NetURL.v)
    O <op> <plain> <hexreg> <hexrepo> <hexinput> <hexdescdigest>   requests of a reference-taking operation *)
 let show_verdict v =
@@ -39,6 +40,16 @@ let () =
       (match url_split u with
        | Some q -> Printf.printf "%s URL %s SPLIT %s %s %s %s %s\n" id (hex_of_str u) (hex_of_str q.u_scheme) (hex_of_str q.u_authority) (hex_of_str q.u_path) (ho q.u_query) (ho q.u_fragment)
        | None -> Printf.printf "%s URL %s NOSPLIT\n" id (hex_of_str u))
+    | [id; "D"; op; plain; hr; hp; hd; ha; hn] ->
+      let unh h = if h = "-" then [] else str_of_hex h in
+      let o = match op with
+        | "dmfetch" -> DMFetch | "dmdelete" -> DMDelete | "dbfetch" -> DBFetch | "dbdelete" -> DBDelete
+        | "dreferrers" -> DReferrers | "dmount" -> DMount | "dbpush" -> DBPush | "dtags" -> DTags
+        | _ -> failwith "descop" in
+      let base = { r_registry = unh hr; r_repository = unh hp; r_reference = [] } in
+      let l = desc_op_requests o (plain = "1") base (unh hd) (unh ha) (unh hn) in
+      Printf.printf "%s REQS%s\n" id
+        (String.concat "" (List.map (fun (m, u) -> " " ^ hex_of_str m ^ ":" ^ hex_of_str u) l))
     | [id; "G"; h] ->
       let reg = if h = "-" then [] else str_of_hex h in
       (match go_registry_verdict reg with
